@@ -254,7 +254,9 @@ def run(res, replay=None):
             r.randint(0, 1), 1 if sp2 else 0, r.randint(0, ng), r.randint(0, ng), 1 if mb else 0,
             r.randint(0, (ng + dpb - 1) // dpb) if mb else 0, ds, (ng + dpb - 1) // dpb, r.randint(0, 40),
             1 if bs == 1024 and r.random() < 0.8 else 0, r.choice([256, 1024, 8 * bs]), bs, ng))
-    text = "\n".join(cfgs) + "\nL 46\n"
+    l2 = ["L2 %d %d %d 5" % (a, b, g) for a, b, g in [(0, 0, 9), (1, 0, 9), (0, 7, 9), (1, 8, 9), (3, 3, 4), (1, 1, 2), (0, 1, 2)]] + \
+         ["L2 %d %d %d 6" % (r.choice([0, r.randint(1, 50)]), r.choice([0, r.randint(1, 50)]), r.randint(2, 60)) for _ in range(20)]
+    text = "\n".join(cfgs) + "\nL 46\n" + "\n".join(l2) + "\n"
     hout = run_lines(hexe, text)
     mout = run_lines(mexe, text)
     sweep_bad = None
